@@ -104,7 +104,7 @@ def run_cmp(case, ctx):
         if k == "complex" and name not in ("eq", "ne"):
             continue
         forms = [("vector", S.Vector(list(b)), b), ("list", list(b), b), ("tuple", tuple(b), b),
-                 ("scalar", case["scalar"], [case["scalar"]] * len(a))]
+                 ("scalar", case["scalar"], [case["scalar"]] * len(a)), ("self", va, a)]
         if k == "date" and any(x is not None for x in a):
             forms.append(("iso-string", case["iso"], [case["iso"]] * len(a)))
         for form, rhs, ys in forms:
@@ -260,6 +260,36 @@ def run_na(case, ctx):
     if d.schema() is not None and d.schema().nullable:
         return ctx.fail("dropna/reports-nullable", f"{vals} -> {d.schema()}")
     kind = v.schema().kind if v.schema() is not None else object
+    # vectors whose dtype says nullable although no None is left: selections that leave the None out,
+    # and vectors whose None was overwritten
+    derived = []
+    if None in vals and clean:
+        keep = [x is not None for x in vals]
+        derived.append(("masked", v[S.Vector(keep)], clean))
+        first = next(i for i, x in enumerate(vals) if x is not None)
+        derived.append(("sliced", v[first:first + 1], [vals[first]]))
+        w = v.copy()
+        try:
+            for i, x in enumerate(vals):
+                if x is None:
+                    w[i] = clean[0]
+            derived.append(("overwritten", w, [clean[0] if x is None else x for x in vals]))
+        except Exception:  # noqa: BLE001
+            pass
+    for how, dv, dvals in derived:
+        for x in [y for y in case["fills"] if y is not None and _compatible(y, kind)][:1] + [dvals[0]]:
+            ctx.ev()
+            try:
+                f = dv.fillna(x)
+                dd = dv.dropna()
+            except Exception as e:  # noqa: BLE001
+                return ctx.fail(f"fillna/derived-{how}/raised/{type(e).__name__}", f"{dvals} (from {vals}).fillna({x!r}): {e}")
+            if [freeze(y) for y in f] != [freeze(y) for y in dvals] and not all(_widened(o, g) or same(o, g) for o, g in zip(dvals, f)):
+                return ctx.fail(f"fillna/derived-{how}/values", f"{dvals}.fillna({x!r}) -> {list(f)}")
+            if f.schema() is not None and f.schema().nullable:
+                return ctx.fail(f"fillna/reports-nullable/derived-{how}", f"{dvals} (selection of {vals}, dtype {dv.schema()}).fillna({x!r}) reports {f.schema()}")
+            if dd.schema() is not None and dd.schema().nullable:
+                return ctx.fail(f"dropna/reports-nullable/derived-{how}", f"{dvals} -> {dd.schema()}")
     for x in case["fills"]:
         ctx.ev()
         try:
